@@ -11,6 +11,9 @@ pub const PLAIN_KEYS: &[&str] = &[
     "a", "b", "c", "d", "ab", "A", "_", "a1", "é", "☺", "𝄞", "", " ", "a b", "0", "1", "-1", "*", "$", "@", "a.b",
     "length", "/", "~", "~0", "~1", "a/b", "\u{a0}", "\u{2028}", "\u{3000}a", "\u{7f}", "\u{ff21}", "\u{e000}", "\u{1f600}",
     "\u{e9}\u{e9}/x", "\u{1d11e}/\u{1d11e}",
+    // direction marks and other invisible format characters, as they arrive in names exported from chat logs,
+    // right-to-left column titles and copied Windows paths (Bidi_Control, ZWJ / ZWNJ, soft hyphen, word joiner)
+    "\u{200e}name", "\u{5e9}\u{5dd}\u{200f}", "\u{202a}C:/Users/x\u{202c}", "\u{2066}a\u{2069}", "\u{61c}", "a\u{200d}b", "a\u{200c}b", "co\u{ad}op", "a\u{2060}b", "\u{202e}txt.exe",
     // look-alikes that only a Unicode normalisation would identify (precomposed / decomposed, compatibility
     // characters), case variants, and long names
     "e\u{301}", "\u{c5}", "\u{212b}", "A\u{30a}", "\u{df}", "ss", "SS", "\u{131}", "i", "I",
